@@ -86,6 +86,7 @@ var c8Clients = []c8Client{
 	{"none", "", "", "a = a + b; a, b = b, a; _ = a - 1"},
 	{"blank", "_=lib", "", "_ = a + b"},
 	{"shadow", "", "func F(x int) int { return x }", "_ = F(1); _ = (F)(2)"},
+	{"variadic", "", "func v(xs ...int) int { return len(xs) }", "_ = v(s...); _ = [...]int{1, 2}"},
 	// function
 	{"f_plain", "lib", "", "_ = lib.F(1)"},
 	{"f_stmt", "lib", "", "lib.F(1)"},
@@ -101,7 +102,7 @@ var c8Clients = []c8Client{
 	// generic functions
 	{"g_explicit", "lib", "", "_ = lib.G[int](1)"},
 	{"g_inferred", "lib", "", "_ = lib.G(1)"},
-	{"g_paren", "lib", "", "_ = (lib.G[int])(1); _ = (lib.G)[int](2)"},
+	{"g_paren", "lib", "", "_ = (lib.G[int])(1); _ = ((lib.G[int]))(2)"},
 	{"g_value", "lib", "", "g := lib.G[int]; _ = g(1)"},
 	{"g_dot", ".=lib", "", "_ = G[int](1); _ = G(2)"},
 	{"g_ref", "lib", "", "_ = lib.G[int]"},
@@ -264,6 +265,7 @@ func init() {
 		(*ast.CommClause)(nil), (*ast.CompositeLit)(nil), (*ast.EmptyStmt)(nil), (*ast.SwitchStmt)(nil),
 		(*ast.TypeSwitchStmt)(nil), (*ast.TypeAssertExpr)(nil), (*ast.TypeSpec)(nil), (*ast.InterfaceType)(nil),
 		(*ast.BranchStmt)(nil), (*ast.IncDecStmt)(nil), (*ast.BasicLit)(nil), (*ast.Ellipsis)(nil),
+		(*ast.IndexListExpr)(nil), // pattern.IndexListExpr: a Node of the language (Symbol matches through it)
 		(*ast.BlockStmt)(nil), (*ast.FieldList)(nil),
 	} {
 		c8Nameable[reflect.TypeOf(n)] = true
